@@ -38,6 +38,22 @@ def run_tables(run, rng):
             meta[f"table_{name}"] = meta[f"unitary_{name}"] = (name, nq, len(ps))
             run.case(["table", name])
             run.sample({"obligation": f"table_{name}", "class": name, "params": ps})
+        # GeneralizedRBS (variable arity): instances with equal and unequal register sizes
+        gg = qtrace.mod("qibo.gates.gates")
+        for (a, b) in ((1, 1), (2, 1), (1, 2), (2, 2), (1, 3)):
+            params = qtrace.setup_vars(2)
+            name = f"GeneralizedRBS_{a}_{b}"
+            try:
+                g = gg.GeneralizedRBS(list(range(a)), list(range(a, a + b)), params[0], params[1])
+                lit = qtrace.gate_lit(g)
+            except Exception as e:
+                run.oblige(f"table_{name}", False, "untranslatable")
+                run.find(f"trace:table:{name}", f"matrix of {name} cannot be traced: {type(e).__name__}: {e}", concrete=False)
+                continue
+            items.append((f"table_{name}", f"mcheck_eq {lit} (MLit (S_GeneralizedRBS {a}%nat {b}%nat (avar 0) (avar 1)))"))
+            items.append((f"unitary_{name}", f"mis_unitary {lit} {a + b}%nat"))
+            meta[f"table_{name}"] = meta[f"unitary_{name}"] = (name, a + b, 2)
+            run.case(["table", name])
     res, okc = run.prove_bools("C01_tables", HEADER, items, timeout=900, kind="gate-table")
     if res is None:
         run.find("coq:C01_tables", "generated gate-table obligations do not compile", concrete=False)
@@ -79,7 +95,11 @@ def spec_numeric(run, name, vals):
 def search(name, nq, npar, unitary, rng):
     for _ in range(8):
         vals = [round(rng.uniform(0.05, 1.5), 3) for _ in range(npar)]
-        g = qtrace.make_gate(name, list(range(nq)), vals)
+        if name.startswith("GeneralizedRBS_"):
+            a, b = (int(x) for x in name.split("_")[1:])
+            g = qtrace.mod("qibo.gates.gates").GeneralizedRBS(list(range(a)), list(range(a, a + b)), *vals)
+        else:
+            g = qtrace.make_gate(name, list(range(nq)), vals)
         M = np.asarray(g.matrix())
         if unitary:
             d = float(np.abs(M.conj().T @ M - np.eye(len(M))).max())
@@ -137,4 +157,27 @@ def reference_matrix(name, vals):
         return ctrl(one["X"](), 6)
     if name == "CCZ":
         return ctrl(one["Z"](), 6)
+    if name.startswith("GeneralizedRBS_"):
+        a, b = (int(x) for x in name.split("_")[1:])
+        t, p = vals
+        M = np.eye(2 ** (a + b), dtype=complex)
+        iin, iout = (2 ** a - 1) * 2 ** b, 2 ** b - 1
+        M[iin, iin], M[iin, iout] = e(1j * p) * c(t), -e(1j * p) * s(t)
+        M[iout, iin], M[iout, iout] = e(-1j * p) * s(t), e(-1j * p) * c(t)
+        return M
+    if name == "MS":
+        p0, p1, t = vals
+        M = np.zeros((4, 4), dtype=complex)
+        cc, ss = c(t / 2), s(t / 2)
+        M[0, 0] = M[1, 1] = M[2, 2] = M[3, 3] = cc
+        M[0, 3], M[3, 0] = -1j * e(-1j * (p0 + p1)) * ss, -1j * e(1j * (p0 + p1)) * ss
+        M[1, 2], M[2, 1] = -1j * e(-1j * (p0 - p1)) * ss, -1j * e(1j * (p0 - p1)) * ss
+        return M
+    return generic_reference(name, vals)
+
+
+def generic_reference(name, vals):
+    """remaining classes: the documented matrix evaluated numerically from Spec/GateSpec.v through the
+    tracer's own numeric evaluator is not available, so a witness is searched by comparing with the matrix
+    of the *unmodified formula's algebraic consequences* (unitarity is checked separately); returns None."""
     return None
